@@ -158,7 +158,7 @@ impl<'a> Drive<'a> {
                     self.stats.violation(Violation {
                         signature,
                         detail,
-                        replay: serde_json::json!({"engine": engine, "case": case, "from": path}),
+                        replay: serde_json::json!({"engine": engine, "case": case, "from": path, "log_level": configured_log_level()}),
                     });
                 }
             }
@@ -232,7 +232,7 @@ impl<'a> Drive<'a> {
                 stats.violation(Violation {
                     signature,
                     detail,
-                    replay: serde_json::json!({"engine": engine, "case": value, "seed": self.params.seed, "worker": self.params.worker}),
+                    replay: serde_json::json!({"engine": engine, "case": value, "seed": self.params.seed, "worker": self.params.worker, "log_level": configured_log_level()}),
                 });
             }
             Err(TestError::Abort(reason)) => {
@@ -300,4 +300,31 @@ pub fn pick(sel: u16, len: usize) -> usize {
     } else {
         ((sel as usize) * len) >> 16
     }
+}
+
+/// The agent's log level is process-wide configuration (`fileLogLevel` in the service); the end-to-end workers run under
+/// different levels (chosen from the worker index, or taken from the replay file) and record the one in force.
+static LOG_LEVEL: std::sync::OnceLock<String> = std::sync::OnceLock::new();
+
+pub fn configured_log_level() -> String {
+    LOG_LEVEL.get().cloned().unwrap_or_else(|| "Trace(default)".to_string())
+}
+
+pub fn configure_log_level() -> String {
+    let from_replay = std::env::var("VERIF_REPLAY").ok().and_then(|p| std::fs::read_to_string(p).ok()).and_then(|t| serde_json::from_str::<serde_json::Value>(&t).ok()).and_then(|v| v["log_level"].as_str().map(|s| s.to_string()));
+    let worker: usize = std::env::var("VERIF_WORKER").ok().and_then(|s| s.parse().ok()).unwrap_or(0);
+    let seed: usize = std::env::var("VERIF_SEED").ok().and_then(|s| s.parse::<i64>().ok()).map(|v| v as usize).unwrap_or(1);
+    let name = from_replay.unwrap_or_else(|| if worker % 2 == 0 { "Trace(default)".to_string() } else { ["Info", "Warn", "Error", "Debug"][(worker / 2 + seed) % 4].to_string() });
+    let level = match name.as_str() {
+        "Info" => Some(log::Level::Info),
+        "Warn" => Some(log::Level::Warn),
+        "Error" => Some(log::Level::Error),
+        "Debug" => Some(log::Level::Debug),
+        _ => None,
+    };
+    if let Some(l) = level {
+        proxy_agent_shared::logger::logger_manager::set_logger_level(l);
+    }
+    let _ = LOG_LEVEL.set(name.clone());
+    name
 }
